@@ -152,6 +152,7 @@ type ConnScript struct {
 	IdleEnd    Dur // at the end of the script, read until EOF or this long without data
 	NoClose    bool
 	Client     *ClientScript // non-nil: a real smtp.Client instead of the raw driver
+	Stub       *StubScript   // non-nil: the peer is the scripted stub server, not the real smtp.Server
 	AcceptErrs int           // temporary Accept errors injected before this connection is offered
 }
 
